@@ -190,9 +190,63 @@ pub fn run_histories(col: &Collector, space_idx: u64, props: &[&str], thorough: 
             _ => col.machinery_error(format!("history thread for {:?} could not be run", seqs[i])),
         }
     });
+    // the same on ONE BUILDER: the level (and once the mode) changes between builds without a new builder; the
+    // automatic version follows the level, so the side changes while the builder stays
+    let payloads: Vec<Vec<u8>> = vec![content(Family::Ctr, 0, 40), content(Family::Ctr, 1, 30), content(Family::Ctr, 2, 58), content(Family::Ctr, 2, 300)];
+    let mut rseqs: Vec<(usize, Vec<(u8, bool)>)> = vec![];
+    for pi in 0..payloads.len() {
+        for a in 0..4u8 {
+            for b in 0..4u8 {
+                for c in 0..4u8 {
+                    if a != b {
+                        rseqs.push((pi, vec![(a, false), (b, false), (c, false)]));
+                        if pi < 2 {
+                            rseqs.push((pi, vec![(a, false), (b, true), (c, true)]));
+                        }
+                    }
+                }
+            }
+        }
+    }
+    let rbuilds = AtomicU64::new(0);
+    pool::par_for(rseqs.len(), |i| {
+        let (pi, seq) = &rseqs[i];
+        let input = &payloads[*pi];
+        let mut b = fast_qr::QRBuilder::new(input.clone());
+        for (step, &(e, force_byte)) in seq.iter().enumerate() {
+            let o = Opts { mode: if force_byte { Some(2) } else { None }, ecl: Some(e), version: None, mask: None, order: 0 };
+            let built = match subject::guarded(|| {
+                b.ecl(subject::ECLS[e as usize]);
+                if force_byte {
+                    b.mode(subject::MODES[2]);
+                }
+                b.build()
+            }) {
+                Ok(r) => subject::classify(r),
+                Err(m) => Outcome::Panic(m),
+            };
+            rbuilds.fetch_add(1, Ordering::Relaxed);
+            let mut f = core::check_outcome(&built, input, &o);
+            if let Outcome::Ok(q) = &built {
+                f.extend(core::check_symbol(q, input, &o));
+                col.eval(Some(core::obs_digest(q)));
+            } else {
+                col.eval(None);
+            }
+            for fd in f {
+                if props.contains(&fd.prop) {
+                    let mut cj = subject::case_json(input, &o);
+                    cj["kind"] = json!("rebuild-history");
+                    cj["levels_then_force_byte"] = json!(seq.iter().map(|(e, m)| json!([e, m])).collect::<Vec<_>>());
+                    cj["step"] = json!(step);
+                    col.violation((space_idx, (seqs.len() + i) as u64), format!("{}-after-rebuild", fd.key), format!("build {} on one builder whose level (and mode) changed between builds {:?}: {}", step, seq, fd.what), cj);
+                }
+            }
+        }
+    });
     col.space(json!({
-        "name": "S_hist", "cases": builds.load(Ordering::Relaxed), "sequences": seqs.len(), "exhaustive": true,
-        "what": format!("same-thread build histories, each on its own fresh thread: [a, b, a] for {} ordered pairs of distinct versions, all triples over versions {:?} with changing neighbours, and level-changing revisits of versions 5-8; every build judged by the per-symbol oracle", if thorough { "all 1560" } else { "every second of the 1560 (and all with both versions <= 12)" }, set),
+        "name": "S_hist", "cases": builds.load(Ordering::Relaxed) + rbuilds.load(Ordering::Relaxed), "sequences": seqs.len() + rseqs.len(), "exhaustive": true,
+        "what": format!("same-thread build histories, each on its own fresh thread: [a, b, a] for {} ordered pairs of distinct versions, all triples over versions {:?} with changing neighbours, and level-changing revisits of versions 5-8; plus, on ONE builder, every sequence of three levels (first two different) for 4 payloads with automatic version (and Byte mode forced from the second build on); every build judged by the per-symbol oracle", if thorough { "all 1560" } else { "every second of the 1560 (and all with both versions <= 12)" }, set),
         "violations": col.violation_count.load(Ordering::Relaxed) - viol0,
         "wall_s": (t0.elapsed().as_secs_f64() * 100.0).round() / 100.0,
     }));
